@@ -61,7 +61,7 @@ def main():
         },
         "engines": [
             {"name": "E1-kani", "path": "lib/kanirun.py", "serves_properties": sorted(CLAIMS), "kind_free_text": "Kani 0.68/CBMC 6.11 bounded model checking of in-crate proof harnesses (incrate/<property>/*.rs) over the real crate staged from /repo; environment model crates (models/) via [patch]; native concrete-playback replay before any VIOLATION"},
-            {"name": "E2-mir2smt", "path": "engines/mir2smt", "serves_properties": ["C01", "C02", "C03", "C06", "C16", "C18"], "kind_free_text": "own encoder: nightly MIR dump -> SMT-LIB; interleaving queries over the atomics kernels (C06/C16/C18) and sequential kernels (extension loop of load_from_source, shard selection of the map), decided by z3 and cvc5 (must agree)"},
+            {"name": "E2-mir2smt", "path": "engines/mir2smt", "serves_properties": ["C01", "C02", "C03", "C06", "C09", "C10", "C16", "C18"], "kind_free_text": "own encoder: nightly MIR dump -> SMT-LIB; interleaving queries over the atomics kernels (C06/C16/C18) and sequential kernels (extension loop of load_from_source, shard selection of the map), decided by z3 and cvc5 (must agree)"},
         ],
         "checks": [],
         "not_applicable": [],
@@ -77,7 +77,7 @@ def main():
                 "thorough_cmd": f"./check {pid} --tier thorough",
                 "evidence_file": f"/verif/evidence/{pid}.json",
                 "replay_cmd_template": "./replay-trace {path}",
-                "engine": "E1-kani+E2-mir2smt" if pid in ("C01", "C02", "C03", "C06", "C16", "C18") else "E1-kani",
+                "engine": "E1-kani+E2-mir2smt" if pid in ("C01", "C02", "C03", "C06", "C09", "C10", "C16", "C18") else "E1-kani",
                 "level_claimed": {"category": lvl, "text": text, "design_ref": f"DESIGN.md §6 {pid}"},
                 "level_note": note,
                 "technique": tech,
